@@ -586,6 +586,9 @@ def check_end_time_separator(facts, out):
                     evs = H.flat_write_events(facts, writer)   # ensure helpers resolvable
                     arms.setdefault(tuple(sorted(vs)), []).append(a['body'])
     H.walk(hfn['body'], visit)
+    if not arms:
+        # the per-object part may live in a helper (`encode_hit_object`) called from a closure
+        H.walk(H.inlined_fn(facts, hfn, depth=2, keep=('add_path_data', 'get_sample_bank'))['body'], visit)
     found = 0
     for vs, bodies in arms.items():
         for body in bodies:
@@ -938,11 +941,11 @@ def check_colors(facts, out):
             for a in t['args']:
                 if a['k'] == 'const' and 'str' in a:
                     prefixes.append(a['str'])
-    inits = H.binding_inits(hfn)
     n = 0
-    for ev in H.write_events(hfn):
+    for ev in H.flat_write_events(facts, writer):
         if ev['kind'] != 'fmt':
             continue
+        inits = H.event_inits(facts, ev)
         p0 = ev['pieces'][0] if ev['pieces'] else None
         if p0 and p0[0] == 'lit':
             n += 1
@@ -1304,7 +1307,16 @@ def check_path_tokens(facts, out):
     # last one, `|` otherwise) -- a letter on the last (or only) control point ends the path field
     from hp import Ctx as _Ctx, IF as _IF, BIN as _BIN, K as _K, ANY as _ANY, CONTAINS as _CONTAINS
     ctx2 = _Ctx(facts, v_inits, encv)
-    sep_pat = _IF(_BIN('Eq', _ANY(), _BIN('Sub', _ANY(), _K(1))), _K(44), _K(124))      # i == len - 1 ? b',' : b'|'
+    from hp import OR as _OR2
+    _last = _OR2(_BIN('Eq', _ANY(), _BIN('Sub', _ANY(), _K(1)), commutative=True),           # i == len - 1
+                 _BIN('Eq', _BIN('Add', _ANY(), _K(1), commutative=True), _ANY(), commutative=True),   # i + 1 == len
+                 _BIN('Ge', _BIN('Add', _ANY(), _K(1), commutative=True), _ANY()))            # i + 1 >= len
+    _notlast = _OR2(_BIN('Ne', _ANY(), _BIN('Sub', _ANY(), _K(1)), commutative=True),
+                    _BIN('Ne', _BIN('Add', _ANY(), _K(1), commutative=True), _ANY(), commutative=True),
+                    _BIN('Lt', _BIN('Add', _ANY(), _K(1), commutative=True), _ANY()),
+                    _BIN('Lt', _ANY(), _BIN('Sub', _ANY(), _K(1))))
+    # last control point ? b',' : b'|'  (in either polarity)
+    sep_pat = _OR2(_IF(_last, _K(44), _K(124)), _IF(_notlast, _K(124), _K(44)))
 
     def is_sep_value(e, depth=0):
         """expression whose value is the position-dependent separator"""
